@@ -4,21 +4,21 @@ that claimed checks and not_applicable always cover all 29 properties)."""
 import json, os, sys
 
 V = "/verif"
-REPO_FIX_AND_HOOK_COMMITS = ["988c6e2"]
+REPO_FIX_AND_HOOK_COMMITS = ["988c6e2", "d62d56a"]
 
 claimed = {
     "C07": dict(cat="exploration", ref="5.1", technique="deterministic simulation: storage-fault injection on generated documents + reader delivery schedules, watchdog and memory-capped child as invariant monitors",
                 text="Seeded search over stored-document corruptions (bit/byte flips, zeroed/duplicated/misdirected ranges, truncation, overwritten length fields, garbage, empty), deep nesting, reader delivery plans, templates (incl. unsupported kinds) and marshal values (incl. unsupported kinds) for every public decode/unmarshal/marshal entry point; invariants per call: returns within the watchdog, no escaped panic, worker process survives under an 3 GiB address-space cap. Exploration is the right level: the input space is unbounded and the failure classes (hang, process death) can only be observed by running the real code under a monitor.",
-                note="Sampling, not proof. Watchdog is wall-clock (10 s quick / 30 s thorough per call whose normal cost is < 10 ms). Documents <= a few KiB; nesting up to 3000."),
+                note="Sampling, not proof. Watchdog is wall-clock (20 s quick / 40 s thorough per call whose normal cost is < 10 ms). Workers cap the address space (3 GiB) and the goroutine stack (64 MB). Documents <= a few KiB, plus huge-exponent numbers, self-containing values and, rarely, 300 000 levels of CTE nesting."),
     "C08": dict(cat="exploration", ref="5.2", technique="deterministic simulation: storage-fault injection aimed at length fields + adversarial document families, allocator (TotalAlloc) and address-space-capped worker as the observed resource, deterministic work-step counters",
-                text="Decides the memory clause: one measured decode per run of a document whose length fields were corrupted in storage, of a short document built around one oversized length header, of a container run or a growing benign family, under several MaxArraySizeBytes settings; allocation during exactly that call must stay within 2*base + 4 MiB + K*len(doc) + 8*MaxArraySizeBytes with base measured in-process and K checked by a start-up calibration (exit 2 if benign families are not 10x below the budget); the worker dying of out-of-memory under its 3 GiB cap is a violation by itself. A work-step bound (reader calls + events <= 8*len+64) stands in for the time clause.",
+                text="Decides the memory clause: one measured decode per run of a document whose length fields were corrupted in storage, of a short document built around one oversized length header, of a container run or a growing benign family, under several MaxArraySizeBytes settings; allocation during exactly that call must stay within 2*base + 4 MiB + K*len(doc) + 8*MaxArraySizeBytes with base measured in-process and K checked by a start-up calibration (exit 2 if benign families are not 10x below the budget); the worker dying of out-of-memory under its 3 GiB cap is a violation by itself. One run in forty measures one construct at two sizes (n, 4n; 23 document families) and requires alloc(4n) <= 6*alloc(n) + 4 MiB, which sees quadratic cost that a per-byte constant cannot. A work-step bound (reader calls + events <= 8*len+64) stands in for the time clause.",
                 note="The CPU-time clause is NOT decided: deterministic simulation does not measure CPU seconds; superlinear CPU work that makes no extra reader call or event is outside this technique. K is deliberately generous (4096 CBE / 16384 CTE bytes per input byte) because unmarshaling really costs hundreds of bytes per input byte; the violations aimed at are 10^2..10^9 times larger."),
     "C09": dict(cat="fault_enumeration", ref="5.3", technique="deterministic simulation: exhaustive crash-point (cut) enumeration per generated document, prefix relation + completeness reference model",
                 text="For each generated valid document every cut point 0<k<len is enumerated for the from-memory and the reader entry point and for untyped/typed templates; oracle: error returned, partial value is a prefix of the full value, and (event-stream documents) every completely delivered list element / map entry is present per a reference model built from recorded encoder offsets. Fault enumeration is the right level: the crash-point space of one document is finite and small, the document space is sampled.",
                 note="Rule enforcement stays on (with rules disabled nothing is meant to detect a structurally incomplete document). Zero value of a template type counts as 'nothing decoded'. Records and marker-wrapped arrays are excluded from documents because the library's full value for them is already wrong (pure decode defects outside this property). One known finding (CTE token split by the cut)."),
     "C11": dict(cat="exploration", ref="5.4", technique="deterministic simulation: producer flush-schedule exploration (chunk boundaries x data-event splits) with injected delivery faults against a reference array acceptor",
                 text="The same array is delivered to a fresh validator under exhaustive single/double splits (small payloads), drawn multi-chunk schedules incl. splits inside elements and characters and zero-length chunks, and fault schedules (under/over delivery, missing final chunk, chunk ending inside a character, invalid UTF-8, data after the end, wrong header, invalid media type); verdict must equal a 60-line reference acceptor written from the property statement and forwarded bytes must equal delivered bytes.",
-                note="Reference acceptor is the trusted base; MaxArraySizeBytes stays at its default (limits are C14)."),
+                note="Reference acceptor is the trusted base; MaxArraySizeBytes stays at its default (limits are C14) except in the position 'second array under a limit that fits each array but not both'."),
     "C16": dict(cat="exploration", ref="5.5", technique="deterministic simulation: seeded operation histories with injected failures (unsupported kinds, corrupt/truncated documents, limit violations, mid-operation I/O faults, producer aborts) on one long-lived instance, fresh instance as executable reference model",
                 text="Drawn histories of 2-12 operations on one reused marshaler / unmarshaler / encoder / decoder / validator(Reset), each operation also executed on a fresh instance with identical simulated reader/writer plans; compared call by call: bytes written incl. the prefix before a failure, events forwarded, value, err==nil, rejecting event; a hang of the reused instance is a deadlock/livelock violation (watchdog + goroutine-state classification).",
                 note="Each use of a generated value gets its own freshly built copy so that argument mutation (another property) cannot make the two sides see different inputs."),
@@ -32,7 +32,7 @@ claimed = {
                 text="For generated valid and storage-corrupted documents, every reader entry point is run under drawn delivery plans and, for small documents, every single split offset, every single (0,nil) position, data+EOF and one-byte delivery; result (error-ness, value or event list, also partial ones) must equal the from-memory twin on fresh instances.",
                 note="SimReader implements io.Reader only (no WriterTo/ByteReader fast paths); at most two (0,nil) reads in a row."),
     "C29": dict(cat="fault_enumeration", ref="5.9", technique="deterministic simulation: exhaustive single I/O-fault position enumeration (writer call/byte positions x 2 writer flavours, reader offsets x 3 kinds) plus seeded multi-fault sequences",
-                text="After a fault-free control every single write-failure position (call index, byte count; io.Writer and io.Writer+io.StringWriter flavours; plain, short-write and transient) and every single read-failure offset ((0,err), (m,err), transient; three delivery plans) is enumerated for marshal, unmarshal/decode and the low-level encoder API; a fired fault must yield a non-nil error (encoder event: must not return normally), never an escaped panic; an unfired fault must not change the result.",
+                text="After a fault-free control every single write-failure position (call index, byte count; io.Writer and io.Writer+io.StringWriter flavours; plain, short-write and transient) and every single read-failure offset ((0,err), (m,err), transient, and from sources that report the error once and then continue or end cleanly; three delivery plans) is enumerated for marshal, unmarshal/decode and the low-level encoder API; a fired fault must yield a non-nil error (encoder event: must not return normally), never an escaped panic; an unfired fault must not change the result.",
                 note="Short writes with a nil error are not injected (they violate the io.Writer contract)."),
 }
 
@@ -83,9 +83,9 @@ def main():
         "setup_cmd": "bin/build && bin/build race",
         "hooks": {
             "guard": "verif",
-            "enable": "go build -tags verif (bin/build; hook sites: iterator/session.go, builder/session.go simYield calls; simhook_verif.go/simhook_off.go)",
+            "enable": "go build -tags verif (bin/build; hook sites: iterator/session.go, builder/session.go simYield calls - since the repair d62d56a of the type-cache protocol: :miss, :locked, :stored; simhook_verif.go/simhook_off.go)",
             "baseline_off_cmd": "cd /repo && GOFLAGS=-mod=mod GOPROXY=off GOSUMDB=off GOTOOLCHAIN=local go test -vet=off -count=1 ./...",
-            "source_commits": repo_commits or REPO_FIX_AND_HOOK_COMMITS,
+            "source_commits": REPO_FIX_AND_HOOK_COMMITS,
             "add_only": True,
         },
         "engines": [{"name": "simcheck", "path": "/verif/sim", "serves_properties": sorted(claimed), "kind_free_text": "deterministic simulation with fault injection: one choice tape per run (VERIF_SEED), simulated reader/writer/storage/producer, parent-child process model with watchdog and memory cap, tape minimisation and fresh-process replay"}],
